@@ -63,8 +63,11 @@ def mkOut (kind : String) : Option OStream :=
     else if k.startsWith "room" then (k.drop 4).toString.toNat?.map fun n => { room := some n }
     else none
 
+/-- `s:<text>` when printable non-blank ASCII, `x:<hex>` otherwise -/
+def outStr (cs : List Nat) : String := if cs.all (fun c => 0x21 ≤ c ∧ c ≤ 0x7e) then "s:" ++ str cs else hexOut cs
+
 def showOptStr : Option (List Nat) → String
-  | some r => "some s:" ++ str r
+  | some r => "some " ++ outStr r
   | none => "none"
 
 def showOptCode : Option Nat → String
@@ -128,6 +131,18 @@ def clsOf : String → Option Cls
 def extractDest : String → Option Fcppt.C15.Dest
   | "int" => some (.num ⟨4, true⟩) | "uint" => some (.num ⟨4, false⟩) | "short" => some (.num ⟨2, true⟩)
   | "ulong" => some (.num ⟨8, false⟩) | "long" => some (.num ⟨8, true⟩)
+  | "char" | "schar" => some (.char true) | "uchar" => some (.char false)
+  | _ => none
+
+/-- wait status of the commands of the `system` operation -/
+def waitStatus : String → Option Nat
+  | "exit0" | "true" | "empty" | "exit256" => some 0
+  | "exit3" => some (3 * 256)
+  | "exit255" => some (255 * 256)
+  | "notfound" => some (127 * 256)
+  | "kill" => some 9
+  | "term" => some 15
+  | "segv" => some 11            -- (the core flag 0x80 may be set as well; it does not change WIFEXITED)
   | _ => none
 
 /-- `extract_from_string<std::string>`: `>> word`, then the stream must be at its end -/
@@ -292,6 +307,21 @@ def handle (toks : List String) : String :=
           | none => "bad-op")
       else "bad-op"
     | _, _ => "bad-op"
+  | ["ioextract", ty, kind, s] =>
+    match extractDest ty, payload s with
+    | some d, some cs =>
+      let codes := cs.map Char.toNat
+      -- the stream-state model of C15 has eofbit and failbit; badbit / null streambuf / throwing streambuf: the sentry fails alike
+      let st : Option Fcppt.C15.IStream :=
+        match kind with
+        | "fresh" | "chunk1" | "chunk2" | "file" => some { buf := codes }
+        | "eofbit" => some { buf := codes, eof := true }
+        | "failbit" | "badbit" => some { buf := codes, fail := true }
+        | _ => none
+      (match st with
+        | some st => (match (Fcppt.C15.extract d st).2 with | some v => s!"some {v}" | none => "none")
+        | none => "bad-op")
+    | _, _ => "bad-op"
   | ["writechars", kind, s] =>
     match mkOut kind, payload s with
     | some o, some cs =>
@@ -397,6 +427,7 @@ def handle (toks : List String) : String :=
     match payload n with
     | some name => (match getenv harnessEnv name with | some v => "some s:" ++ String.ofList v | none => "none")
     | none => "bad-op"
+  | ["system", k] => match waitStatus k with | some st => (match systemResult st with | some v => s!"some {v}" | none => "none") | none => "bad-op"
   | ["strerror", n] => if n.toInt?.isSome then "ok" else "bad-op"
   | [op, tt] =>
     if op = "gmtime" ∨ op = "localtime" then
